@@ -34,7 +34,17 @@ def acl_lines(rng):
 
 
 def new_cfg():
-    return dict(acls={}, gps={}, tgs={})          # tgs: name -> [type, [(section, [lines])]]
+    return dict(acls={}, pools={}, gps={}, tgs={}, users={})          # tgs: name -> [type, [(section, [lines])]]; users: name -> [lines]
+
+
+USERS = ['jon.doe@token.example.com', 'mary@example.com', 'bob@vpn.example.com']
+UATTR = [['service-type', 'remote-access'], ['vpn-framed-ip-address', '10.1.1.67', '255.255.254.0'], ['vpn-framed-ip-address', '10.11.22.33', '255.255.0.0'],
+         ['vpn-simultaneous-logins', '4'], ['password-storage', 'enable'], ['vpn-idle-timeout', '60']]
+POOLS = ['10.1.219.192-10.1.219.255 mask 0.0.0.63', '10.1.23.0-10.1.23.127 mask 255.255.255.128', '10.3.4.8-10.3.4.15 mask 255.255.255.248']
+
+
+def std_acl(rng):
+    return [['standard', 'permit', '10.%d.0.0' % k, '255.255.255.0'] for k in sorted(rng.sample(range(1, 9), rng.choice([1, 2])))]
 
 
 def gen_target(rng):
@@ -57,11 +67,36 @@ def gen_target(rng):
         if rng.random() < 0.8:
             secs.append(('ipsec-attributes', pick(rng, IPSEC, rng.choice([1, 2, 3]))))
         c['tgs'][n] = ['ipsec-l2l', secs]
+    for i, u in enumerate(rng.sample(USERS, rng.choice([0, 0, 1, 2]))):
+        attrs = pick(rng, UATTR, rng.choice([1, 2, 3]))
+        if rng.random() < 0.6:
+            if c['gps'] and rng.random() < 0.3:
+                g = rng.choice(sorted(c['gps']))
+            else:
+                g = 'VPN-user%d' % (i + 1)
+                c['gps'][g] = pick(rng, GPATTR, rng.choice([1, 2]))
+            attrs.append(['vpn-group-policy', g])
+        if rng.random() < 0.5:
+            a = 'user-filter%d' % (i + 1)
+            c['acls'][a] = acl_lines(rng)
+            attrs.append(['vpn-filter', 'value', a])
+        c['users'][u] = attrs
+    for g in sorted(c['gps']):
+        if rng.random() < 0.3:
+            p = 'pool%d' % (len(c['pools']) + 1)
+            c['pools'][p] = rng.choice(POOLS).split()
+            c['gps'][g].append(['address-pools', 'value', p])
+        if rng.random() < 0.25 and not any(l[0] == 'split-tunnel-policy' for l in c['gps'][g]):
+            a = 'split-tunnel%d' % (len(c['acls']) + 1)
+            c['acls'][a] = std_acl(rng)
+            c['gps'][g] += [['split-tunnel-network-list', 'value', a], ['split-tunnel-policy', 'tunnelspecified']]
     return c
 
 
 def copy_cfg(c):
     return dict(acls=dict((a, [list(l) for l in ls]) for a, ls in c['acls'].items()),
+                pools=dict((p, list(d)) for p, d in c['pools'].items()),
+                users=dict((u, [list(l) for l in b]) for u, b in c['users'].items()),
                 gps=dict((g, [list(l) for l in b]) for g, b in c['gps'].items()),
                 tgs=dict((t, [v[0], [(s, [list(l) for l in b]) for s, b in v[1]]]) for t, v in c['tgs'].items()))
 
@@ -82,10 +117,13 @@ def set_gp(v, g):
 
 
 def cleanup(c, keep=()):
-    used_g = set(gp_of(v) for v in c['tgs'].values()) | set(k for k in keep if k in c['gps'])
+    used_g = set(gp_of(v) for v in c['tgs'].values()) | set(l[1] for b in c['users'].values() for l in b if l[0] == 'vpn-group-policy') | set(k for k in keep if k in c['gps'])
     c['gps'] = dict((g, b) for g, b in c['gps'].items() if g in used_g)
-    used_a = set(l[2] for b in c['gps'].values() for l in b if l[:2] == ['vpn-filter', 'value']) | set(k for k in keep if k in c['acls'])
+    blocks = list(c['gps'].values()) + list(c['users'].values())
+    used_a = set(l[2] for b in blocks for l in b if l[:2] in (['vpn-filter', 'value'], ['split-tunnel-network-list', 'value'])) | set(k for k in keep if k in c['acls'])
     c['acls'] = dict((a, ls) for a, ls in c['acls'].items() if a in used_a)
+    used_p = set(l[2] for b in c['gps'].values() for l in b if l[:2] == ['address-pools', 'value']) | set(k for k in keep if k in c['pools'])
+    c['pools'] = dict((p, d) for p, d in c['pools'].items() if p in used_p)
 
 
 def mutate(rng, tgt):
@@ -93,7 +131,7 @@ def mutate(rng, tgt):
     edits, keep = [], set()
     for _ in range(rng.choice([0, 1, 1, 2, 2, 3, 4])):
         e = rng.choice(['del_tg', 'old_tg', 'ipsec_attr', 'gp_attr', 'acl_line', 'rename_gp', 'rename_acl', 'share_gp', 'drop_section', 'leftover',
-                        'no_filter', 'other_filter', 'drop_ipsec'])
+                        'no_filter', 'other_filter', 'drop_ipsec', 'del_user', 'old_user', 'user_attr', 'user_gp', 'pool_def', 'rename_pool', 'no_pool', 'user_filter'])
         tgs = sorted(d['tgs'])
         if e == 'del_tg' and tgs:
             d['tgs'].pop(rng.choice(tgs))
@@ -136,14 +174,18 @@ def mutate(rng, tgt):
                 for v in d['tgs'].values():
                     if gp_of(v) == g:
                         set_gp(v, new)
+                for b in d['users'].values():
+                    for l in b:
+                        if l[0] == 'vpn-group-policy' and l[1] == g:
+                            l[1] = new
         elif e == 'rename_acl' and d['acls']:
             a = rng.choice(sorted(d['acls']))
             new = a + '-DRC-%d' % rng.randrange(2)
             if new not in d['acls']:
                 d['acls'][new] = d['acls'].pop(a)
-                for b in d['gps'].values():
+                for b in list(d['gps'].values()) + list(d['users'].values()):
                     for l in b:
-                        if l[:2] == ['vpn-filter', 'value'] and l[2] == a:
+                        if l[:2] in (['vpn-filter', 'value'], ['split-tunnel-network-list', 'value']) and l[2] == a:
                             l[2] = new
         elif e == 'share_gp' and len(tgs) > 1:
             # on the device two tunnel-groups use one group-policy, the target gives each its own
@@ -154,6 +196,44 @@ def mutate(rng, tgt):
         elif e == 'drop_section' and tgs:
             v = d['tgs'][rng.choice(tgs)]
             v[1] = [(s, b) for s, b in v[1] if s != 'general-attributes']
+        elif e == 'del_user' and d['users']:
+            d['users'].pop(rng.choice(sorted(d['users'])))
+        elif e == 'old_user':
+            u = 'old%d@example.com' % rng.randrange(3)
+            k = rng.randrange(60, 70)
+            d['gps']['VPN-olduser%d' % k] = pick(rng, GPATTR, 1)
+            d['users'][u] = pick(rng, UATTR, 1) + [['vpn-group-policy', 'VPN-olduser%d' % k]]
+        elif e == 'user_attr' and d['users']:
+            u = rng.choice(sorted(d['users']))
+            refs_ = [l for l in d['users'][u] if l[0] in ('vpn-filter', 'vpn-group-policy')]
+            d['users'][u] = pick(rng, UATTR, rng.choice([1, 2, 3])) + refs_
+        elif e == 'user_gp' and d['users']:
+            u = rng.choice(sorted(d['users']))
+            d['users'][u] = [l for l in d['users'][u] if l[0] != 'vpn-group-policy']
+            if d['gps'] and rng.random() < 0.6:
+                d['users'][u].append(['vpn-group-policy', rng.choice(sorted(d['gps']))])
+        elif e == 'user_filter' and d['users']:
+            u = rng.choice(sorted(d['users']))
+            d['users'][u] = [l for l in d['users'][u] if l[0] != 'vpn-filter']
+            if rng.random() < 0.6:
+                a = 'user-other%d' % rng.randrange(4)
+                d['acls'][a] = acl_lines(rng)
+                d['users'][u].append(['vpn-filter', 'value', a])
+        elif e == 'pool_def' and d['pools']:
+            p = rng.choice(sorted(d['pools']))
+            d['pools'][p] = rng.choice(POOLS).split()
+        elif e == 'rename_pool' and d['pools']:
+            p = rng.choice(sorted(d['pools']))
+            new = p + '-DRC-%d' % rng.randrange(2)
+            if new not in d['pools']:
+                d['pools'][new] = d['pools'].pop(p)
+                for b in d['gps'].values():
+                    for l in b:
+                        if l[:2] == ['address-pools', 'value'] and l[2] == p:
+                            l[2] = new
+        elif e == 'no_pool' and d['gps']:
+            g = rng.choice(sorted(d['gps']))
+            d['gps'][g] = [l for l in d['gps'][g] if l[:2] != ['address-pools', 'value']]
         elif e == 'leftover':
             k = rng.randrange(3)
             d['acls']['left-DRC-%d' % k] = acl_lines(rng)
@@ -170,8 +250,12 @@ def render(c):
     out = []
     for a, ls in c['acls'].items():
         out += ['access-list %s %s' % (a, ' '.join(l)) for l in ls]
+    for p_, d_ in c['pools'].items():
+        out.append('ip local pool %s %s' % (p_, ' '.join(d_)))
     for g, b in c['gps'].items():
         out += ['group-policy %s internal' % g, 'group-policy %s attributes' % g] + [' ' + ' '.join(l) for l in b]
+    for u, b in c['users'].items():
+        out += ['username %s nopassword' % u, 'username %s attributes' % u] + [' ' + ' '.join(l) for l in b]
     for t, v in c['tgs'].items():
         out.append('tunnel-group %s type %s' % (t, v[0]))
         for s, b in v[1]:
@@ -184,10 +268,12 @@ def cw(l):
 
 
 def c_tdev(c):
-    return '{| td_acls := %s; td_gps := %s; td_tgs := %s; td_mode := TTop |}' % (
+    return '{| td_acls := %s; td_pools := %s; td_gps := %s; td_tgs := %s; td_users := %s; td_mode := TTop |}' % (
         C.clist(['(%s, %s)' % (S(a), C.clist([cw(l) for l in ls])) for a, ls in c['acls'].items()]),
+        C.clist(['(%s, %s)' % (S(p_), cw(d_)) for p_, d_ in c['pools'].items()]),
         C.clist(['(%s, %s)' % (S(g), C.clist([cw(l) for l in b])) for g, b in c['gps'].items()]),
-        C.clist(['(%s, (%s, %s))' % (S(t), S(v[0]), C.clist(['(%s, %s)' % (S(s), C.clist([cw(l) for l in b])) for s, b in v[1]])) for t, v in c['tgs'].items()]))
+        C.clist(['(%s, (%s, %s))' % (S(t), S(v[0]), C.clist(['(%s, %s)' % (S(s), C.clist([cw(l) for l in b])) for s, b in v[1]])) for t, v in c['tgs'].items()]),
+        C.clist(['(%s, %s)' % (S(u), C.clist([cw(l) for l in b])) for u, b in c['users'].items()]))
 
 
 def script_words(out):
